@@ -9,7 +9,7 @@ for b in "$@"; do
   for f in $(git diff --name-only --diff-filter=U); do
     case "$f" in
       lean/Driver.lean|lean/SaVerif.lean|MANIFEST.json|known_findings.json) git checkout --ours -- "$f";;
-      evidence/*) git checkout --theirs -- "$f";;
+      evidence/*) git checkout --theirs -- "$f" 2>/dev/null || git checkout --ours -- "$f";;
       *) echo "CONFLICT in $f (branch $b) — resolve by hand"; exit 1;;
     esac
     git add "$f"
